@@ -43,6 +43,7 @@ const (
 	c13SetGetID        // setpath(p; getpath(p)) == . for every p in paths
 	c13Paths           // [paths] == [path(..)] without the root
 	c13Leaf            // every tostream event [p, leaf]: getpath(p) == leaf
+	c13Derived         // setpath(p; x) | getpath(p) == x for x taken from the value at p itself (its prefixes, suffixes, members)
 )
 
 type c13Law struct {
@@ -203,6 +204,7 @@ var c13Laws = []*c13Law{
 	{name: "todate|fromdate", src: "todate | fromdate", dom: c13WholeSecond, numeric: true},
 	{name: "gmtime|mktime", src: "gmtime | mktime", dom: c13WholeSecond, numeric: true},
 	{name: "setpath(p;x)|getpath(p)", src: "setpath($p; $x) | getpath($p)", vars: []string{"$p", "$x"}, kind: c13SetGet, dom: c13Any},
+	{name: "setpath(p;part of getpath(p))", src: `. as $in | [paths, []] | map(. as $p | ($in | getpath($p)) as $cur | ($cur | if type == "array" or type == "string" then (range(0; length + 1) as $k | .[:$k], .[$k:]), (select(type == "array") | .[]?) elif type == "object" then .[], del(.[keys[0]]?) else empty end) as $x | [$p, $x, ($in | setpath($p; $x) | getpath($p))])`, kind: c13Derived, dom: c13Any},
 	{name: "setpath(p;getpath(p))", src: ". as $in | [paths | . as $p | $in | setpath($p; getpath($p))]", kind: c13SetGetID, dom: c13Any},
 	{name: "[paths]==[path(..)]-root", src: "[[paths], [path(..)]]", kind: c13Paths, dom: c13Any},
 	{name: "tostream-leaf|getpath", src: "[tostream]", kind: c13Leaf, dom: c13Any},
@@ -586,6 +588,27 @@ var kC13 = run.NewKind("c13.law", func(c *run.Ctx, t c13Case) *run.Fail {
 			}
 		}
 		c.Count("paths_round_tripped", int64(len(outs)))
+		if len(outs) > 1 {
+			c.AddEvals(int64(len(outs) - 1))
+		}
+	case c13Derived:
+		if tr.End != run.EndOK || len(tr.Vals) != 1 {
+			return fail("setpath(p; part of getpath(p)) failed for some p: %s", run.TraceDesc(tr))
+		}
+		outs, ok := tr.Vals[0].([]any)
+		if !ok {
+			return fail("unexpected result %s", c13Show(tr.Vals[0]))
+		}
+		for _, o := range outs {
+			tri, _ := o.([]any)
+			if len(tri) != 3 {
+				return fail("unexpected result %s", c13Show(o))
+			}
+			if !c13Same(c, tri[1], tri[2], false) {
+				return fail("for p = %s and x = %s (a part of the value at p), setpath(p; x) | getpath(p) returned %s", c13Show(tri[0]), c13Show(tri[1]), c13Show(tri[2]))
+			}
+		}
+		c.Count("derived_values_round_tripped", int64(len(outs)))
 		if len(outs) > 1 {
 			c.AddEvals(int64(len(outs) - 1))
 		}
